@@ -73,9 +73,10 @@ FitPods(o, npods, pre) == "pods" \in DOMAIN o.alloc => (npods - Val(pre, "pods")
 FitOK(o, sum, npods, pre, req) == FitPods(o, npods, pre) /\ \A d \in Names(o) : FitDim(o, sum, pre, req, d)
 
 (***************************** (M) owner matching ***************************)
-\* pod = [pod (name), ns, app (label), ctrl (name of its controller, "" = none)]
+\* pod = [pod (identity = uid), name, ns, app (label), ctrl (name of its controller, "" = none)]; an object reference
+\* names the pod object, a controller reference with a namespace only owns pods of that namespace
 TermSat(t, pod) == /\ t.sel = ""    \/ pod.app = t.sel
-                   /\ t.obj = ""    \/ pod.pod = t.obj
+                   /\ t.obj = ""    \/ pod.name = t.obj
                    /\ t.objNs = ""  \/ pod.ns = t.objNs
                    /\ t.ctrl = ""   \/ (pod.ctrl = t.ctrl /\ (t.ctrlNs = "" \/ pod.ns = t.ctrlNs))
 \* an owner specification that cannot be parsed is satisfied by nobody
@@ -134,11 +135,17 @@ ROnDeleteF(S, u, o) == IfExistsF(S, u, IF Active(o) /\ o.phase = "Available" THE
 \* the pod informer's handler: a pod object po = [pod, pnode, ra (uid it is annotated with, "" none), req, dead]
 PodGoneF(S, po) == IF po.ra # "" THEN UnassignF(S, po.ra, po.pod) ELSE S
 \* hasOld = FALSE for an add event
-PodSetF(S, hasOld, old, new) ==
+PodSameF(S, hasOld, old, new) ==
     IF new.dead THEN PodGoneF(S, new)
     ELSE IF new.pnode = "" THEN (IF hasOld /\ old.pnode # "" THEN PodGoneF(S, old) ELSE S)
     ELSE LET S1 == IF hasOld /\ old.ra # "" THEN UnassignF(S, old.ra, old.pod) ELSE S
          IN IF new.ra # "" THEN AssignSeenF(S1, new.ra, new.pod, new.req) ELSE S1
+\* An update whose old and new objects are DIFFERENT pods (same namespace / name, another uid: the pod was deleted and
+\* re-created and a re-list merged both into one event): the old pod is gone, the new one is seen for the first time.
+PodSetF(S, hasOld, old, new) ==
+    IF hasOld /\ old.pod # new.pod
+    THEN PodSameF(IF old.pnode # "" THEN PodGoneF(S, old) ELSE S, FALSE, new, new)
+    ELSE PodSameF(S, hasOld, old, new)
 
 Cur == [res |-> res, assigned |-> assigned]
 Becomes(S) == res' = S.res /\ assigned' = S.assigned
